@@ -100,6 +100,8 @@ fn main() {
             "hist" => hist::run(&args),
             #[cfg(feature = "tz-std")]
             "hist-alone" => hist::run_alone(&args),
+            #[cfg(feature = "tz-alloc")]
+            "resolve-long" => resolve::run_long(&args),
             #[cfg(feature = "tz-std")]
             "dump" => dump::run(&args),
             e => {
